@@ -41,7 +41,9 @@ ASSUMPTIONS = [
 THEOREMS = ['C14_intersect_characterised', 'C14_complete', 'C14_sound', 'C14_x_slab_nan_loses_the_ray', 'C14_x_slab_nan_refuted',
             'C14_nan_in_y_or_z_slab_is_ignored', 'C14_float_complete_partial', 'C14_raw_parameter_error',
             'C14_float_complete_margin', 'C14_float_complete_enter_exit', 'C14_float_complete_point',
-            'C14_float_complete_checked', 'C14_margin_formats_ok', 'C14_float_complete_binary64', 'C14_float_complete_binary32']
+            'C14_float_complete_checked', 'C14_margin_formats_ok', 'C14_float_complete_binary64', 'C14_float_complete_binary32',
+            # the same on primitive floats (Properties/C14_prim.v)
+            'C14_prim_run_is_flocq_run', 'C14_prim_box_and_reciprocal', 'C14_prim_x_slab_nan_loses_the_ray', 'C14_prim_known_class_is_lost', 'C14_prim_neg_zero_face_loses_the_ray', 'C14_prim_zero_component_outside_slab_is_rejected', 'C14_prim_x_slab_nan_refuted', 'C14_prim_neg_zero_face_refuted', 'C14_prim_float_complete_margin', 'C14_prim_float_complete_enter_exit', 'C14_prim_float_complete_point', 'C14_prim_margin_side_conditions_checked', 'C14_prim_float_complete_binary64']
 
 def streams(tier):
     if tier == 'quick': return [Stream('C14', 4000)]
